@@ -367,7 +367,7 @@ def wl_chirp_fn(ctx, idx, rng):
 
 def workloads(ctx):
     q = ctx.tier == "quick"
-    return [("coherent", 360 if q else 14400, wl_coherent), ("chirp_fn", 200 if q else 6000, wl_chirp_fn)]
+    return [("coherent", 1440 if q else 14400, wl_coherent), ("chirp_fn", 600 if q else 6000, wl_chirp_fn)]
 
 
 def setup(ctx):
